@@ -78,6 +78,10 @@ func (v verificationMethodValidator) verifyThumbprint(method *did.VerificationMe
 	if err != nil {
 		return fmt.Errorf("unable to get JWK: %w", err)
 	}
+	if keyAsJWK == nil {
+		// JWK() returns nil without error when the verification method has no publicKeyJwk
+		return errors.New("missing publicKeyJwk")
+	}
 	// The key ID must equal the thumbprint calculated here: ignore a "kid" supplied inside publicKeyJwk,
 	// otherwise AssignKeyID keeps it and the check would compare the ID with a value chosen by the document's author.
 	_ = keyAsJWK.Remove(jwk.KeyIDKey)
